@@ -3,7 +3,7 @@
    Definitions only. *)
 From Coq Require Import ZArith List Bool.
 Import ListNotations.
-From Mds Require Import Heapq.HeapqModel.
+From Mds Require Import Gen.HeapqIdx Heapq.HeapqModel.
 Local Open Scope Z_scope.
 
 Definition elt : Type := (Z * Z)%type.
@@ -37,3 +37,24 @@ Definition q_step (v : variant) (q : queue elt) (o : op elt) := step elt v q o.
 Definition q_new (code : Z) : queue elt := New elt (ccmp code).
 Definition q_data (q : queue elt) : list elt := data q.
 Definition q_sort (v : variant) (code : Z) (vs : list elt) : res (list elt) := Sort elt v (ccmp code) vs.
+
+(* ---- the zero-size element type (known finding F14, machine-int audit) ----
+   heapq.Queue[struct{}] with a comparison that is constantly 0 (there is only one value), Set on a
+   slice of n elements; [w] is how an int expression is evaluated: [wrap64] = Go's 64-bit
+   two's-complement int, the identity = the unbounded integers of the model.  No comparison is ever
+   < 0, so no pushDown swaps: pushDown(i) computes lc = 2*i+1 (the generated expression), and if
+   lc < len it reads q.data[lc] -- a negative lc is an index panic naming lc -- and returns.  Set's
+   loop starts at i = len-1; if that lc does not wrap, no smaller i wraps (HeapqInt.no_wrap_below). *)
+Definition wrap64 (z : Z) : Z := (z + 2 ^ 63) mod 2 ^ 64 - 2 ^ 63.
+Inductive zres := ZOk (n : Z) | ZIndexPanic (idx : Z) | ZRefused.
+Definition zset (w : Z -> Z) (n : Z) : zres :=
+  if n <? 0 then ZRefused
+  else if n =? 0 then ZOk 0
+  else let lc := w (HeapqIdx.lchild (HeapqIdx.set_start n)) in
+       if HeapqIdx.pushdown_continue lc n && (lc <? 0) then ZIndexPanic lc else ZOk n.
+Definition zset64 (n : Z) : zres := zset wrap64 n.
+Definition zset_ideal (n : Z) : zres := zset (fun z => z) n.
+(* the harness refuses sizes whose Set would loop for ages; above the bound Set fails at once *)
+Definition z_above_bound (n : Z) : bool := 2 ^ 62 <? n.
+Definition z_refused (n : Z) : bool := (n <? 0) || ((4096 <? n) && (n <=? 2 ^ 62)).
+Definition z_small (n : Z) : bool := n <=? 64.
